@@ -81,7 +81,11 @@ func truncate(s *slip.Scope, f slip.Object, args slip.List, depth int) slip.Valu
 		q = slip.Fixnum(math.Trunc(float64(q.(slip.DoubleFloat))))
 		r = tn - slip.DoubleFloat(q.(slip.Fixnum))*div.(slip.DoubleFloat)
 	case *slip.LongFloat:
-		syncFloatPrec(tn, div.(*slip.LongFloat))
+		{
+			var lf *slip.LongFloat
+			tn, lf = syncFloatPrec(tn, div.(*slip.LongFloat))
+			div = lf
+		}
 		var (
 			zq big.Float
 			zp big.Float
